@@ -89,6 +89,31 @@ pub fn scenario(name: &str, srcs: &SrcCache) -> RaceScenario {
                 names: vec!["B", "G"],
             };
         }
+        "backup||gc-no-bands-yet" => {
+            // An archive with no version at all but with a garbage block (the first backup was
+            // interrupted and its band directory removed, or a delete was interrupted between the
+            // bands and the blocks) whose content reappears in the source.
+            let opts = whole_file_opts();
+            let g: &[u8] = b"GGGGGGGG";
+            let scn = common::build_scenario(name, &[Step::Garbage(g.to_vec())], new_tree(&[g]), opts.clone(), srcs);
+            return RaceScenario {
+                name: name.to_string(),
+                initial: scn.pre.clone(),
+                band_src: scn.band_src.clone(),
+                specs: vec![
+                    ActorSpec::Backup {
+                        src: srcs.dir_for(&new_tree(&[g])),
+                        opts,
+                    },
+                    ActorSpec::Delete {
+                        bands: vec![],
+                        order: None,
+                    },
+                ],
+                actor_src: [(0usize, new_tree(&[g]))].into_iter().collect(),
+                names: vec!["B", "G"],
+            };
+        }
         "backup||gc||backup" => {
             // Three actors: two backups of different trees (both reuse the garbage content) and a gc.
             let opts = whole_file_opts();
@@ -162,6 +187,7 @@ pub fn scenario_names(thorough: bool) -> Vec<&'static str> {
         vec![
             "backup||gc",
             "backup||delete-b0",
+            "backup||gc-no-bands-yet",
             "backup||gc-two-garbage",
             "backup||gc-two-garbage-rev",
             "backup||gc-small-hunks",
@@ -170,7 +196,7 @@ pub fn scenario_names(thorough: bool) -> Vec<&'static str> {
             "backup||delete-b0-T1-T2",
         ]
     } else {
-        vec!["backup||gc", "backup||delete-b0"]
+        vec!["backup||gc", "backup||delete-b0", "backup||gc-no-bands-yet"]
     }
 }
 
